@@ -27,7 +27,7 @@ fn u64_of(v: &Value) -> Option<u64> {
 
 impl Srv {
     fn call(&self, method: &str, params: Value) -> Value {
-        http::rpc(self.port, method, params, Some(&self.creds)).unwrap_or(Value::Null)
+        http::rpc_sure(self.port, method, params, Some(&self.creds))
     }
     fn height(&self) -> u64 {
         u64_of(&self.call("eth_blockNumber", json!([]))["result"]).unwrap_or(0)
@@ -212,7 +212,10 @@ pub fn run(cases_path: &str, out_path: &str, only: Option<bool>) -> i32 {
                 _ => json!([read_a, target_note, read_b]).to_string(),
             };
             let transport = case["transport"].as_str().unwrap_or("http");
-            let (status, text) = if transport == "ws" {
+            let mut attempt = 0;
+            let (status, text) = loop {
+                attempt += 1;
+                let (status, text) = if transport == "ws" {
                 match http::ws_exchange(port, &body, hv.as_deref(), form != "notification") {
                     // one request frame has at most one reply frame (a batch is answered by one array)
                     Ok((st, frames)) => (st, frames.into_iter().next().unwrap_or_default()),
@@ -223,6 +226,16 @@ pub fn run(cases_path: &str, out_path: &str, only: Option<bool>) -> i32 {
                     Ok(x) => x,
                     Err(e) => (0, e),
                 }
+            };
+                // status 0: the connection itself failed (loaded machine): not an answer of the gate; try again
+                if status != 0 {
+                    break (status, text);
+                }
+                if attempt >= 5 {
+                    eprintln!("TOOL ERROR: no connection to the server under test after {} attempts: {}", attempt, text);
+                    return 2;
+                }
+                std::thread::sleep(std::time::Duration::from_millis(200 * attempt));
             };
             if transport == "ws" && status != 101 {
                 violations.push(json!({"case": case, "reply": "no-upgrade", "changed": false,
